@@ -349,6 +349,15 @@ func c20Place(n c20Nil, pos string) ap.Item {
 				p.Elem().Field(f.Index).Set(reflect.ValueOf(&it).Elem())
 			case vocab.KItems:
 				p.Elem().Field(f.Index).Set(reflect.ValueOf(ap.ItemCollection{ap.IRI("https://example.com/member"), n.it}))
+			case vocab.KEndpoints:
+				// the item-typed properties of the nested endpoints value count as well
+				e := &ap.Endpoints{}
+				ev := reflect.ValueOf(e).Elem()
+				for i := 0; i < ev.NumField(); i++ {
+					var it ap.Item = n.it
+					ev.Field(i).Set(reflect.ValueOf(&it).Elem())
+				}
+				p.Elem().Field(f.Index).Set(reflect.ValueOf(e))
 			}
 		}
 		return p.Interface().(ap.Item)
